@@ -299,7 +299,7 @@ class Program:
 
     def _base_env(self, f):
         env = {}
-        if f.cls is not None and f.params:
+        if f.cls is not None and f.params and not f.is_static:
             env[f.params[0]] = inst(f.cls.name)
         for p in f.all_params:
             t = self.param_t.get((f.qual, p))
@@ -813,9 +813,7 @@ class Program:
             self.attr_t[(o, attr)] = t if old is None else union(old, t)
 
     def _flow_args(self, call, g, env, f):
-        params = g.params
-        if g.cls is not None:
-            params = params[1:]
+        params = g.bound_params()
         for i, a in enumerate(call.args):
             if isinstance(a, ast.Starred):
                 break
